@@ -2,7 +2,7 @@
 From Coq Require Import List ZArith Bool.
 From LJT Require Import model.Huff model.Seq model.Prog model.Script model.ArithBin gen.GenNatOrder
   proofs.NatOrderProofs proofs.SeqBits proofs.SeqProofs proofs.ProgProofs proofs.ProgRefineProofs proofs.ScriptProofs
-  proofs.ChainProofs proofs.ArithProofs proofs.ArithACProofs proofs.ArithQMProofs proofs.ArithScanProofs proofs.TotalityProofs model.CoefCtl gen.GenScanCtl proofs.CoefCtlProofs proofs.ScanCtlProofs model.T81Arith
+  proofs.ChainProofs proofs.ArithProofs proofs.ArithACProofs proofs.ArithQMProofs proofs.ArithScanProofs proofs.TotalityProofs model.CoefCtl model.RestartCtr gen.GenRestartCtr proofs.RestartCtrProofs gen.GenScanCtl proofs.CoefCtlProofs proofs.ScanCtlProofs model.T81Arith
   proofs.T81ArithProofsIdeal proofs.T81ArithProofsBytes proofs.ExampleCodec proofs.C03Examples gen.GenEntropyBytes proofs.EntropyBytesProofs gen.GenRestartClamp proofs.RestartProofs.
 Import ListNotations.
 Local Open Scope Z_scope.
@@ -408,3 +408,42 @@ Print Assumptions C03_resume_emits_raster.
 
 Example C03_resume_needs_the_reset : drive 2 3 false 5 0 0 [true; false] <> Some (raster 2 3).
 Proof. exact no_reset_loses_mcus. Qed.
+
+(* ---- the literal restart counters (restarts_to_go / next_restart_num of jchuff.c, jcphuff.c, jcarith.c; the decoders'
+   restarts_to_go and jdmarker.c's next_restart_num), per MCU, for every restart interval and MCU count:
+   they emit RSTn exactly at the chunk boundaries of the chunked layer, numbered consecutively mod 8 from 0; the decoder
+   expects a marker exactly where, and with the number which, the encoder emits it; and the literal per-MCU code
+   writes the bytes of enc_scan -- so every chunked round-trip theorem above applies to the literal code *)
+Theorem C03_restart_counters_chunked : forall (M : Type) Ri (ms : list M),
+  enc_ctr M Ri Ri 0 ms = chunk_events M (S (length ms)) Ri 0 ms.
+Proof. exact enc_ctr_is_chunked. Qed.
+Print Assumptions C03_restart_counters_chunked.
+
+Theorem C03_restart_counters_decoder : forall (M : Type) (ms : list M) Ri rtg num,
+  dec_ctr Ri rtg num (length ms) = map (forget M) (enc_ctr M Ri rtg num ms).
+Proof. exact dec_ctr_matches_enc. Qed.
+Print Assumptions C03_restart_counters_decoder.
+
+Theorem C03_restart_numbers_mod8 : forall (M : Type) fuel Ri n (ms : list M), 0 <= n < 8 ->
+  exists k, rst_numbers M (chunk_events M fuel Ri n ms) = map (fun i => (n + Z.of_nat i) mod 8) (seq 0 k).
+Proof. exact chunk_numbers. Qed.
+Print Assumptions C03_restart_numbers_mod8.
+
+Theorem C03_restart_counters_bytes : forall (M : Type) (enc_seg : list M -> option (list bool)) Ri ms,
+  render M enc_seg (enc_ctr M Ri Ri 0 ms) [] = enc_scan M enc_seg Ri ms.
+Proof. exact render_enc_ctr. Qed.
+Print Assumptions C03_restart_counters_bytes.
+
+Theorem C03_source_restart_counters :
+  forallb (Z.eqb RST_MASK) gen_enc_rst_masks = true /\ (10 <= length gen_enc_rst_masks)%nat /\
+  gen_dec_rst_mask = RST_MASK /\ gen_dec_rst_step = 1 /\
+  gen_enc_reload_is_interval = true /\ gen_dec_reload_is_interval = true /\
+  gen_enc_init_interval_and_zero = true /\ gen_dec_init_zero = true /\
+  (forall x, 0 <= x -> Z.land x RST_MASK = x mod 8).
+Proof. exact source_restart_counters. Qed.
+Print Assumptions C03_source_restart_counters.
+
+Example C03_restart_counters_nonvacuous :
+  enc_ctr nat 3 3 0 [10; 11; 12; 13; 14; 15; 16]%nat =
+    [EvMcu 10; EvMcu 11; EvMcu 12; EvRst 0; EvMcu 13; EvMcu 14; EvMcu 15; EvRst 1; EvMcu 16]%nat.
+Proof. reflexivity. Qed.
